@@ -55,4 +55,31 @@ PROPS = {
                          "Locale(s) and SpaceDelimitedArray decoders are exercised in the C09 stream only"],
         "assumptions": ["block function of fixed output size 16 (any function: the CFB theorem does not use AES)"],
     },
+    "C04": {
+        "proof_module": "OidcModel.Proofs.C04",
+        "theorems": ["C04.authorizeCodeClient_ok", "C04.validateAccessTokenRequest_ok", "C04.legacyCodeExchange_ok",
+                     "C04.authorizeCodeChallenge_ok", "C04.validateGrantType_iff"],
+        "cases": {"quick": 250, "thorough": 4000},
+        "rule": "random histories (4..18 ops quick, ..44 thorough) of authorize / login / callback / code exchange / refresh over 7 clients "
+                "(confidential basic x2, public native, client_secret_post, private_key_jwt, without refresh grant, without code grant) on both routers, "
+                "with replays, cross-client redemption, wrong / missing redirect_uri and code_verifier, S256 and plain challenges, wrong secrets, forged / expired / "
+                "foreign assertions, garbage codes, and an injected DeleteAuthRequest failure; every line is one HTTP request against the real handlers; the "
+                "model (regenerated decision functions + hand-written stateful shell) must produce the same response, the reference monitor judges the observed one; "
+                "non-trivial = not the modal class; distinct = class x input",
+        "trivial_class": r"authorize:login",
+        "trusted_base": COMMON_TB + ["the handler skeletons (tokensHandler, withClient, CodeExchange) and the storage effects of CreateTokenResponse are hand-modelled (Model/Flow.lean); tied by this stream",
+                                     "reference storage refstore as the meaning of a contract-fulfilling op.Storage",
+                                     "history-level single-use follows from the modelled deletion; see Proofs/C04 for what is proved at function level"],
+        "assumptions": ["codes and refresh tokens are compared through the harness's symbol table (real string <-> label)"],
+    },
+    "C07": {
+        "proof_module": "OidcModel.Proofs.C07",
+        "theorems": ["C07.validateRefreshTokenScopes_ok", "C07.validateRefreshTokenRequest_ok", "C07.legacyRefreshToken_ok", "C07.scope_chain_narrows"],
+        "cases": {"quick": 250, "thorough": 4000},
+        "rule": "the same histories as C04 with refresh chains favoured: own / foreign client, subset / superset / disjoint / empty scope lists, replayed (rotated) "
+                "and unknown refresh tokens, refresh support enabled and disabled, both routers; journal entries of the storage calls are part of the observation",
+        "trivial_class": r"authorize:login",
+        "trusted_base": COMMON_TB + ["handler skeletons and rotation in the reference storage are hand-modelled; tied by this stream"],
+        "assumptions": [],
+    },
 }
